@@ -101,6 +101,13 @@ class CallMixin:
                 return r[1]
         return None
 
+    def canon(self, t):
+        """Canonical form of sequence terms (right-nested concatenation without empty parts) so that equal arguments
+        of specification functions are syntactically equal."""
+        if z3.is_seq(t) and z3.is_app_of(t, z3.Z3_OP_SEQ_CONCAT):
+            return self.flat_concat(t)
+        return t
+
     def sort_of_ann(self, ann):
         t = self.ann_text(ann)
         return {"int": I, "bool": B, "bytes": S, "str": Str, "obj": Obj, "intset": IntSet, "seqobj": SeqObj,
@@ -172,15 +179,30 @@ class CallMixin:
         q = Path()
         q.spec = True
         q.pc = p.pc if p is not None else []
-        if not recursive:
-            q.env = {pn: a for (pn, _, _), a in zip(params, args)}
-            return self.ev(expr, q, fi.module)
         sorts = [self.sort_of_ann(a) for _, a, _ in params]
         rs = self.sort_of_ann(fi.node.returns)
+        if not recursive:
+            if None in sorts or rs is None or any(isinstance(a, (VObj, VTuple, VOpt, VNone)) for a in args):
+                q.env = {pn: a for (pn, _, _), a in zip(params, args)}
+                return self.ev(expr, q, fi.module)
+            # a defined function: one named application + its definition instantiated at these arguments (keeps terms
+            # small: the definition is not expanded in place)
+            uf = self.func(name, *(sorts + [rs]))
+            terms = [self.canon(self.term_of(a, s_)) for a, s_ in zip(args, sorts)]
+            app = uf(*terms)
+            key = app.sexpr()
+            if key not in self.axioms:
+                self.axioms[key] = z3.BoolVal(True)
+                q.env = {pn: (VBytes(t, "bytes") if isinstance(a, VBytes) else self.wrap_term(t)) for (pn, _, _), a, t in zip(params, args, terms)}
+                q.pc = []          # definitional instances do not depend on path facts
+                bodyv = self.ev(expr, q, fi.module)
+                bt = self.term_of(bodyv, rs) if not (rs == B and isinstance(bodyv, VBool)) else bodyv.t
+                self.axioms[key] = (app == bt)
+            return self.wrap_term(app)
         if None in sorts or rs is None:
             raise Unsupported(f"spec function {name}: parameter/return annotations must be int|bool|bytes|str|obj")
         uf = self.func(name, *(sorts + [rs]))
-        terms = [self.term_of(a, s) for a, s in zip(args, sorts)]
+        terms = [self.canon(self.term_of(a, s)) for a, s in zip(args, sorts)]
         app = uf(*terms)
         if fuel is None:
             fuel = getattr(self, "cur_fuel", 1)
@@ -731,7 +753,7 @@ def val_sort(eng, v):
 # ---------------------------------------------------------------------- primitive spec functions (sequence library)
 def _p_cat(eng, args, p):
     ts = [a.t for a in args]
-    return VBytes(z3.Concat(*ts) if len(ts) > 1 else ts[0], "bytes")
+    return VBytes(eng.flat_concat(*ts), "bytes")
 
 
 def _p_seq1(eng, args, p):
@@ -742,28 +764,20 @@ def _p_empty(eng, args, p):
     return VBytes(z3.Empty(S), "bytes")
 
 
-def _clamp0(eng, k, n, p):
-    if p is not None and eng.implied(p, z3.And(k >= 0, k <= n)):
-        return k
-    return z3.If(k < 0, z3.IntVal(0), z3.If(k > n, n, k))
-
-
 def _p_take(eng, args, p):
+    """take(s, k) := the first k octets (all of s when k > len(s), empty when k < 0): exactly z3's extract(s, 0, k)."""
     s, k = args[0].t, eng.as_int(args[1])
-    n = z3.Length(s)
-    kk = _clamp0(eng, k, n, p)
-    if p is not None:
-        return VBytes(eng.mk_extract(s, z3.IntVal(0), kk, p), "bytes")
-    return VBytes(z3.Extract(s, z3.IntVal(0), z3.simplify(kk)), "bytes")
+    if p is not None and z3.is_app_of(s, z3.Z3_OP_SEQ_EXTRACT) and eng.implied(p, z3.And(k >= 0, k <= s.arg(2), s.arg(1) >= 0, s.arg(1) + s.arg(2) <= z3.Length(s.arg(0)))):
+        return VBytes(z3.Extract(s.arg(0), s.arg(1), k), "bytes")
+    return VBytes(z3.Extract(s, z3.IntVal(0), k), "bytes")
 
 
 def _p_drop(eng, args, p):
+    """drop(s, k) := s without its first k octets (empty when k < 0 or k > len(s)): exactly z3's extract(s, k, len(s) - k)."""
     s, k = args[0].t, eng.as_int(args[1])
-    n = z3.Length(s)
-    kk = _clamp0(eng, k, n, p)
-    if p is not None:
-        return VBytes(eng.mk_extract(s, kk, n, p), "bytes")
-    return VBytes(z3.Extract(s, z3.simplify(kk), z3.simplify(n - kk)), "bytes")
+    if p is not None and z3.is_app_of(s, z3.Z3_OP_SEQ_EXTRACT) and eng.implied(p, z3.And(k >= 0, k <= s.arg(2), s.arg(1) >= 0, s.arg(2) >= 0, s.arg(1) + s.arg(2) <= z3.Length(s.arg(0)))):
+        return VBytes(z3.Extract(s.arg(0), eng.lite_simplify(s.arg(1) + k), eng.lite_simplify(s.arg(2) - k)), "bytes")
+    return VBytes(z3.Extract(s, k, z3.Length(s) - k), "bytes")
 
 
 def _p_is_bytes(eng, args, p):
